@@ -23,6 +23,10 @@ var langTags = map[string]language.Tag{
 	"zh-Hant-JP": language.MustParse("zh-Hant-JP"), "ko-KR": language.MustParse("ko-KR"), "pt-BR": language.MustParse("pt-BR"),
 	"de-CH": language.MustParse("de-CH"), "fr-CA": language.MustParse("fr-CA"), "mul": language.MustParse("mul"),
 	"tlh": language.MustParse("tlh"), "zh-Hans-US": language.MustParse("zh-Hans-US"), "jv": language.MustParse("jv"), "enm": language.MustParse("enm"),
+	// languages with a three-letter code whose first two letters spell "ja" / "en" (Jamaican Creole, Jara, a Japonic language
+	// other than Japanese, Enga, Middle English with a region): cutting a tag to two characters turns them into ja / en
+	"jam": language.MustParse("jam"), "jam-JM": language.MustParse("jam-JM"), "jaa": language.MustParse("jaa"), "jpx": language.MustParse("jpx"),
+	"enq": language.MustParse("enq"), "enm-GB": language.MustParse("enm-GB"), "jam-Latn": language.MustParse("jam-Latn"),
 }
 
 // regional variants of English / Japanese: their names are unspecified (not validated), but using
@@ -294,7 +298,7 @@ func cmdReport(args []string) {
 	for i := range recs {
 		recs[i] = NewRecorder()
 	}
-	langs := []string{"en", "ja", "und", "fr", "de", "zh", "und-JP", "fr-CA", "ko-KR", "zh-Hant-JP"}
+	langs := []string{"en", "ja", "und", "fr", "de", "zh", "und-JP", "fr-CA", "ko-KR", "zh-Hant-JP", "jam", "enq", "jam-JM", "jaa", "enm-GB"}
 	nb := v3BaseCount()
 	// prologue: reports in regional variants of en / ja first (history: they must not poison later ones)
 	if em, err := m3.NewEnvironmental().Decode("CVSS:3.1/AV:A/AC:H/PR:L/UI:N/S:C/C:L/I:H/A:L/E:P/RL:O/RC:U/CR:L/IR:M/AR:L/MAV:P/MAC:L/MPR:N/MUI:R/MS:C/MC:H/MI:H/MA:H"); err == nil {
